@@ -67,8 +67,8 @@ namespace RecInt
     inline ruint<K>& gcd(ruint<K>& c, const ruint<K>& a, const ruint<K>& b) {
         ruint<K> q, r, d;
 
+        copy(d, b); // before c is written: c may be b
         copy(c, a);
-        copy(d, b);
 
         while (d != 0) {
             div(q, r, c, d);
